@@ -23,6 +23,8 @@ import (
 	"strconv"
 	"strings"
 	"unicode"
+	"unicode/utf16"
+	"unicode/utf8"
 )
 
 // Config allows enabling and disabling parser features.
@@ -328,12 +330,23 @@ func (p *flagParser) parseStringDQuote() (string, error) {
 
 	// Find the closing quote: a quote is escaped only if it is preceded by an
 	// odd number of backslashes, so skip every escaped character as a pair.
-	// The JSON escape \/ is not known to strconv.Unquote and is replaced here.
-	var cleaned []byte // set once a \/ escape has been replaced
+	// The JSON escape \/ is not known to strconv.Unquote and is replaced here,
+	// and so are \u escapes of UTF-16 surrogates (JSON writes a character
+	// outside the basic plane as a pair of them).
+	var cleaned []byte // set once an escape has been replaced
 	i := 1
 	for ; i < len(in); i++ {
 		c := in[i]
 		if c == '\\' && i+1 < len(in) {
+			if r, n := surrogateEscape(in[i:]); n > 0 {
+				if cleaned == nil {
+					cleaned = append(cleaned, in[:i]...)
+				}
+				var buf [utf8.UTFMax]byte
+				cleaned = append(cleaned, buf[:utf8.EncodeRune(buf[:], r)]...)
+				i += n - 1
+				continue
+			}
 			if in[i+1] == '/' {
 				if cleaned == nil {
 					cleaned = append(cleaned, in[:i]...)
@@ -361,6 +374,31 @@ func (p *flagParser) parseStringDQuote() (string, error) {
 		return strconv.Unquote(string(append(cleaned, '"')))
 	}
 	return strconv.Unquote(in[:i+1])
+}
+
+// surrogateEscape decodes a \uXXXX escape of a UTF-16 surrogate at the start
+// of s: a high surrogate followed by the escape of a low one yields the
+// character they encode (n = 12 bytes of input), any other surrogate yields
+// the replacement character (n = 6), like encoding/json does. n is 0 if s
+// does not start with the escape of a surrogate.
+func surrogateEscape(s string) (r rune, n int) {
+	hex4 := func(s string) (rune, bool) {
+		if len(s) < 6 || s[0] != '\\' || s[1] != 'u' {
+			return 0, false
+		}
+		v, err := strconv.ParseUint(s[2:6], 16, 32)
+		return rune(v), err == nil
+	}
+	hi, ok := hex4(s)
+	if !ok || !utf16.IsSurrogate(hi) {
+		return 0, 0
+	}
+	if lo, ok := hex4(s[6:]); ok {
+		if r := utf16.DecodeRune(hi, lo); r != unicode.ReplacementChar {
+			return r, 12
+		}
+	}
+	return unicode.ReplacementChar, 6
 }
 
 func (p *flagParser) parseStringSQuote() (string, error) {
